@@ -16,7 +16,7 @@ CONSTANTS MaxFaults
 ASSUME TableOK
 
 \* value texts: "v" followed by a letter per variable so that every value is distinguishable
-ValOf(v, k) == IF Kind(v) = "I" THEN <<49, 48 + (v % 10), 48 + k>> ELSE <<118, 96 + v, EQ, 48 + k>>
+ValOf(v, k) == IF VKind(v) = "I" THEN <<49, 48 + (v % 10), 48 + k>> ELSE <<118, 96 + v, EQ, 48 + k>>
 BaseLines == Flatten([v \in Vars |->
                 IF v = 6 THEN << VarTable[v].name \o <<EQ>> \o ValOf(v, 1), VarTable[v].name \o <<EQ>>,
                                  VarTable[v].name \o <<EQ>> \o ValOf(v, 2) >>
@@ -27,7 +27,7 @@ Init == lines = BaseLines /\ nf = 0
 
 NameOf(l) == LET i == FirstPos(l, EQ) IN IF i = 0 THEN l ELSE SubSeq(l, 1, i - 1)
 RestOf(l) == LET i == FirstPos(l, EQ) IN IF i = 0 THEN <<>> ELSE SubSeq(l, i, Len(l))
-IsIntLine(l) == LET v == VarByName(NameOf(l)) IN v # 0 /\ Kind(v) = "I"
+IsIntLine(l) == LET v == VarByName(NameOf(l)) IN v # 0 /\ VKind(v) = "I"
 
 RemAt(s, i) == SubSeq(s, 1, i - 1) \o SubSeq(s, i + 1, Len(s))
 InsAt(s, i, x) == SubSeq(s, 1, i - 1) \o <<x>> \o SubSeq(s, i, Len(s))
@@ -65,8 +65,8 @@ AcceptedOK == LET r == Parse(Text) IN
                   LET mine == SelectSeq(lines, LAMBDA l : NameOf(l) = VarTable[v].name)
                       vals == [i \in 1..Len(mine) |-> SubSeq(mine[i], Len(VarTable[v].name) + 2, Len(mine[i]))]
                   IN IF mine = <<>> THEN r[2][v] = <<>>
-                     ELSE IF Kind(v) = "A" THEN r[2][v] = <<vals>>
-                     ELSE IF Kind(v) = "S" THEN r[2][v] = <<vals[Len(vals)]>>
+                     ELSE IF VKind(v) = "A" THEN r[2][v] = <<vals>>
+                     ELSE IF VKind(v) = "S" THEN r[2][v] = <<vals[Len(vals)]>>
                      ELSE r[2][v] = <<I64Print(I64Value(vals[Len(vals)]))>>
 BaseRoundTrip == nf = 0 => Parse(Text)[1] = "ok" /\ Render(Parse(Text)[2]) = Text
 
